@@ -699,8 +699,81 @@ func stubAtomicIntrinsic(in *Interp, th *Thread, fn *ssa.Function, a []Value) (V
 	panic(in.unsupported("atomic intrinsic " + name))
 }
 
-// stubFmt: formatting and logging are never the subject; Sprint-like functions return an opaque string.
+// hostArgs converts concrete interpreter values to host values for fmt; ok=false if anything is symbolic/opaque.
+func (in *Interp) hostArgs(v Value) ([]interface{}, bool) {
+	sl, ok := v.(SliceV)
+	if !ok {
+		return nil, false
+	}
+	var out []interface{}
+	for i := 0; i < sl.len; i++ {
+		iv, ok := in.loadCell(sl.arr.kids[sl.off+i]).(IfaceV)
+		if !ok {
+			return nil, false
+		}
+		if iv.t == nil {
+			out = append(out, nil)
+			continue
+		}
+		switch x := iv.v.(type) {
+		case StrV:
+			s, ok := x.concrete()
+			if !ok {
+				return nil, false
+			}
+			out = append(out, s)
+		case *Term:
+			if x.op != OpConst && x.op != OpTrue && x.op != OpFalse {
+				return nil, false
+			}
+			w, signed, _ := typeWidth(iv.t)
+			switch {
+			case w == 0:
+				out = append(out, x.op == OpTrue)
+			case signed:
+				out = append(out, sx(x.val, w))
+			default:
+				out = append(out, x.val)
+			}
+		default:
+			return nil, false
+		}
+	}
+	return out, true
+}
+
+// stubFmt: formatting and logging are never the subject; Sprint-like functions return an opaque string, except that
+// Sprintf/Fprintf on fully concrete strings and integers are evaluated by the host (the router builds its regular
+// expressions with them).
 func stubFmt(in *Interp, th *Thread, fn *ssa.Function, a []Value) (Value, stubStatus) {
+	switch fn.Name() {
+	case "Sprintf":
+		if f, ok := a[0].(StrV).concrete(); ok {
+			if args, ok := in.hostArgs(a[1]); ok {
+				return constStr(fmt.Sprintf(f, args...), in.tb), stDone
+			}
+		}
+	case "Fprintf":
+		if f, ok := a[1].(StrV).concrete(); ok {
+			if args, ok := in.hostArgs(a[2]); ok {
+				if w, ok := a[0].(IfaceV); ok && w.t != nil {
+					ms := in.prog.MethodSets.MethodSet(w.t)
+					for i := 0; i < ms.Len(); i++ {
+						if ms.At(i).Obj().Name() == "Write" {
+							wr := in.prog.MethodValue(ms.At(i))
+							txt := fmt.Sprintf(f, args...)
+							arr := in.newArrayCell(types.Typ[types.Uint8], len(txt), "Fprintf")
+							for j := 0; j < len(txt); j++ {
+								arr.kids[j].v = in.tb.Const(uint64(txt[j]), 8)
+							}
+							in.callSync(th, FuncV{fn: wr}, []Value{w.v, SliceV{arr: arr, len: len(txt), cap: len(txt)}})
+							return TupleV{in.tb.Const(uint64(len(txt)), 64), IfaceV{}}, stDone
+						}
+					}
+				}
+			}
+		}
+	}
 	res := fn.Signature.Results()
 	switch res.Len() {
 	case 0:
